@@ -41,7 +41,7 @@ ELEM = ['a', 'x_1', '\\alpha', '\\frac{a}{b}', 'f(x)', '\\zzm{a}{b}', '2', '{a}'
 LEAD = ['', '', '', '\\,', '\\quad ', '~', '\\ ', '\\qquad\\qquad ', '\\quad\\; ']
 TRAIL = ['', '', ' \\label{kk}', ' \\nonumber', '\\,', ' \\quad ', ' \\label{kk}\\,', ' %c\n']
 ENVS = ['equation', 'align', 'align*', 'eqnarray', 'gather', '[', '$$', 'displaymath', 'multiline', 'flalign*',
-        'equation*', 'alignat', 'eqnarray*', 'gather*']
+        'equation*', 'alignat', 'eqnarray*', 'gather*', 'alignat*', 'flalign', 'multiline*', 'alignat*']
 
 part = st.tuples(st.sampled_from(LEAD), st.one_of(st.none(), st.sampled_from(OPS)),
                  st.lists(st.tuples(st.sampled_from(ELEM), st.one_of(st.just(''), st.sampled_from(OPS))), min_size=0, max_size=3),
@@ -104,8 +104,8 @@ def render_eq(r, eq):
         pre, post = '\\[ ', ' \\]'
     elif env == '$$':
         pre, post = '$$ ', ' $$'
-    elif env == 'alignat':
-        pre, post = '\\begin{alignat}{2} ', ' \\end{alignat}'
+    elif env in ('alignat', 'alignat*'):
+        pre, post = '\\begin{%s}{2} ' % env, ' \\end{%s}' % env
     else:
         pre, post = '\\begin{%s} ' % env, ' \\end{%s}' % env
     lo = len(r.src)
